@@ -14,6 +14,10 @@ Fixpoint ftab_get (t : list (fl * str)) (f : fl) : str :=
 Definition tabf (t : list (str * bool)) (s : str) : bool :=
   match alookup s t with Some b => b | None => false end.
 
+(* a key strategy given by a table of verdicts and the names on which the callback raises *)
+Definition tabk (t : list (str * bool)) (r : list str) (s : str) : option bool :=
+  if str_mem s r then None else Some (tabf t s).
+
 (* ------------------------------------------------------------------ paths and flattening *)
 Definition path := list str.
 
@@ -75,7 +79,10 @@ Section Obs.
     i_src : project; i_dst : project;      (* both projects before the call, mtimes explicit *)
     i_opts : opts;
     i_entry : entry;
-    i_parallel : bool
+    i_parallel : bool;
+    i_unmodelled : bool                    (* the trees contain symbolic links (snapshotted as pseudo files holding the
+                                              link text): outside the model — no prediction is compared; only the
+                                              observational dry-run oracle of C15 is evaluated on such a case *)
   }.
 
   Record sobs := {
@@ -177,7 +184,8 @@ Section Obs.
   Definition mismatch_sync (c : scase) : bool :=
     let i := c_in c in
     let par := i_parallel i in
-    call_differs par (i_opts i) (i_entry i) (i_src i) (i_dst i) (c_obs c)
+    negb (i_unmodelled i) &&
+   (call_differs par (i_opts i) (i_entry i) (i_src i) (i_dst i) (c_obs c)
     || negb (Bool.eqb (wants_again i (c_obs c)) (negb (is_none (c_again c))))
     || match c_again c with
        | Some o2 => call_differs par (i_opts i) (i_entry i) (ob_src (c_obs c)) (ob_dst (c_obs c)) o2
@@ -187,7 +195,7 @@ Section Obs.
        | Some o, Some r => call_differs (par && o_dry_run (i_opts i)) o (i_entry i) (i_src i) (i_dst i) r
        | None, None => false
        | _, _ => true
-       end.
+       end).
 
   (* exact equality of two predicted observations (used by the differential classifiers) *)
   Definition sobs_eqb (a b : sobs) : bool :=
@@ -208,7 +216,8 @@ Section Obs.
        fix_F16 := fix_F16 c || N.eqb k 3; fix_root := fix_root c || N.eqb k 7;
        fix_excl := fix_excl c || N.eqb k 5; fix_dryinit := fix_dryinit c || N.eqb k 6;
        fix_ignore := fix_ignore c || N.eqb k 8; fix_implicit := fix_implicit c || N.eqb k 9;
-       fix_shared := fix_shared c || N.eqb k 10 |}.
+       fix_shared := fix_shared c || N.eqb k 10; fix_own := fix_own c || N.eqb k 11;
+       fix_funny := fix_funny c || N.eqb k 12 |}.
   Definition active (k : N) (i : sinput) : bool :=
     negb (scase_obs_eqb (model_case cfg_current i) (model_case (with_fix k) i))
     || (i_parallel i
@@ -244,20 +253,30 @@ Section Obs.
   Definition user_excl (i : sinput) (p : path) : bool := existsb (o_exclude (i_opts i)) p.
   Definition doc_is_file (i : sinput) : bool :=
     match o_docsync (i_opts i) with DS_copy => true | _ => false end.
-  (* excluded from file synchronisation as the property reads: a component matches a user pattern, or it is
-     the state point file, or the job document unless documents are copied like files *)
+  (* excluded from file synchronisation as the property reads: a component matches a user pattern, or the path
+     is the job's own state point file, or its own document unless documents are copied like files — the two
+     own files live at the top level of the job; files of the same names further down are ordinary files *)
   Definition path_excluded (i : sinput) (p : path) : bool :=
-    user_excl i p || str_eqb (last_name p) FN_SP || (negb (doc_is_file i) && str_eqb (last_name p) FN_DOC).
+    user_excl i p || path_eqb p [FN_SP] || (negb (doc_is_file i) && path_eqb p [FN_DOC]).
 
-  (* p does not exist in d and could be created (no file in the way) *)
-  Fixpoint absent_in (p : path) (d : dir) : bool :=
+  (* the entry the source has at p (a file if want_dir = false, a directory otherwise) is absent from d: nothing
+     is there, or something of the other kind is — at p itself or on the way (a file where a directory is
+     needed).  A sync that returns must then have produced the source's entry: the superset clause leaves a call
+     only two ways out of a kind clash, deliver or raise *)
+  Fixpoint absent_in (want_dir : bool) (p : path) (d : dir) : bool :=
     match p with
     | [] => false
+    | [k] =>
+        match alookup k d with
+        | None => true
+        | Some (Dir _) => negb want_dir
+        | Some (File _ _) => want_dir
+        end
     | k :: p' =>
         match alookup k d with
         | None => true
-        | Some (Dir d') => absent_in p' d'
-        | Some (File _ _) => false
+        | Some (Dir d') => absent_in want_dir p' d'
+        | Some (File _ _) => true
         end
     end.
 
